@@ -321,6 +321,11 @@ def run(ctx):
         for rec in (3, 6):
             jobs.append((S.mkcfg(1, 1, rec, 0, simd=simd), rng.below(1 << 30), nfit,
                          {"scale": rng.uniform(0.3, 2.5), "dtypes": rng.choice(DTYPE_PAIRS[:10]), "dscale": 1.0}))
+    # the frequency-domain decimators (and the L = 3 stage in front of one) with EVERY recipe: whether a block is a whole number of
+    # output frames depends on the filter length each recipe designs (num_taps mod 4), not on the plan class
+    for (a, b) in ((4, 3), (2, 3), (2, 1), (8, 3)):
+        for rec in (1, 2, 3, 4, 5, 6, 7):
+            jobs.append((S.mkcfg(a, b, rec, 0, simd=rng.below(2)), rng.below(1 << 30), nfit))
     if not quick:
         jobs += [(c, rng.below(1 << 30), nfit) for c in S.pick_any(rng, 500) + S.pick_rational(rng, 300)]
     res = S.pool_map(job_c12, jobs)
